@@ -161,13 +161,13 @@ def build_sequences(rng, quick):
         mk("shipped", "fresh", 60, "en-us-g2.ctb"); mk("shipped", "fresh", 40, "en-gb-g1.utb")
     else:
         mk("empty", "general", 0)
-        for _ in range(6):
+        for _ in range(40):
             mk("empty", rng.choice(["general", "f0"]), rng.randint(1, 200))
-        for _ in range(150):
+        for _ in range(600):
             mk("gen", "f0", rng.randint(0, 200), "f0")
-        for k in ["mixed", "extras", "multipass", "f0", "onetoone"] * 30:
+        for k in ["mixed", "extras", "multipass", "f0", "onetoone"] * 120:
             mk("gen", "general", rng.randint(20, 200), k)
-        for k in ["f0", "multipass", "mixed"] * 20:
+        for k in ["f0", "multipass", "mixed"] * 80:
             mk("gen", "fresh", rng.randint(20, 120), k)
         for tn in ["en-us-g1.ctb", "en-us-g2.ctb", "es-g1.ctb", "fr-bfu-comp6.utb", "en-gb-g1.utb", "cs-g1.ctb", "nl-NL-g0.utb",
                    "en-us-comp6.ctb", "de-g0.utb", "unicode-braille.utb", "en-ueb-g1.ctb", "it-it-comp6.utb"]:
@@ -294,20 +294,23 @@ def run(tier):
             s.M = common.Case("M%d" % si, ["HOOK budget 3000000"] + setup, s.mprobes, {})
             casesA.append(s.M)
     # rule shapes with partial effects / accepted with error / crash: each alone on a small base
-    DIRTY_BASE = "space \\s 0\nletter a 1\nletter b 2\nlowercase c 14\ndigit 1 2\n"
+    DIRTY_BASE = "space \\s 0\nletter a 1\nletter b 2\nlowercase c 14\ndigit 1 2\nuppercase E 1346\nalways aE 15-1456\nemphclass italic\n"
+    dprobes = [[0x61, 0x45, 0x61, 0x45], [0x61, 0x62, 0x20, 0x31, 0x63], [0x45, 0x45, 0x20, 0x45]]
     dirty = []
     for di, (txt, shape) in enumerate(G.MALFORMED_DIRTY + [("UTF-8", "hyphenation-header"), ("ISO-8859-1 x", "hyphenation-header")]):
         tn = "d%d.ctb" % di
         c = common.Case("D%d" % di, ["TBL %s %s" % (tn, common.hexbytes(DIRTY_BASE))],
                         ["ADD %s 23" % tn, "DUMP %s nofinal" % tn, "DISPDUMP %s" % tn, "ADD %s %s" % (tn, common.hexbytes(txt)),
                          "DUMP %s nofinal" % tn, "DISPDUMP %s" % tn, "ADD %s %s" % (tn, common.hexbytes("sign q 123")),
-                         "ADD %s %s" % (tn, common.hexbytes("attribute probeattr ab")), "DUMP %s nofinal" % tn],
+                         "ADD %s %s" % (tn, common.hexbytes("attribute probeattr ab")), "DUMP %s nofinal" % tn] +
+                        [fwd(tn, u) for u in dprobes] + [bwd(tn, [0x8001, 0x802d, 0x8011, 0x8039])],
                         {"txt": txt, "shape": shape, "base": DIRTY_BASE})
         dirty.append(c); casesA.append(c)
     # control: the same follow-up additions without the rejected rule
     cCtl = common.Case("Dctl", ["TBL dctl.ctb %s" % common.hexbytes(DIRTY_BASE)],
                        ["ADD dctl.ctb 23", "ADD dctl.ctb %s" % common.hexbytes("sign q 123"),
-                        "ADD dctl.ctb %s" % common.hexbytes("attribute probeattr ab"), "DUMP dctl.ctb nofinal"], {})
+                        "ADD dctl.ctb %s" % common.hexbytes("attribute probeattr ab"), "DUMP dctl.ctb nofinal"] +
+                       [fwd("dctl.ctb", u) for u in dprobes] + [bwd("dctl.ctb", [0x8001, 0x802d, 0x8011, 0x8039])], {})
     casesA.append(cCtl)
     # F7 regression: a failed compile earlier in the process must not make a later `include` addition fail
     f7setup = ["TBL A.ctb " + common.hexbytes("space \\s 0\nspace z 3\nsign a 1\nsign b 2\n"),
@@ -327,6 +330,13 @@ def run(tier):
     casesB = []
     for si, s in enumerate(seqs):
         full = s.A[s.n]
+        if full.fault and full.fault["kind"] == "tick-budget":
+            # a probe does not terminate on this table (multipass rules that do not advance: decided by C03, finding F2);
+            # the sequence is dropped
+            dist["dropped_nonterminating_probe"] = dist.get("dropped_nonterminating_probe", 0) + 1
+            v.notes.append("sequence %d dropped: a translation probe exceeds the tick budget (C03)" % si)
+            s.flags = None
+            continue
         if full.fault:
             v.violation("C15:fault:%s:%s" % (full.fault["kind"], full.fault["frame"]),
                         "fault during a sequence of run-time additions: %s %s" % (full.fault["kind"], full.fault.get("detail", "")[:200]),
@@ -369,6 +379,8 @@ def run(tier):
         # prefix consistency of the return values, then B cases
         for k in s.cps:
             a = s.A[k]
+            if a.fault and a.fault["kind"] == "tick-budget":
+                continue
             if a.fault:
                 v.violation("C15:fault:%s:%s" % (a.fault["kind"], a.fault["frame"]), "fault during additions (prefix %d)" % k,
                             {"script": a.setup + a.ops[:max(1, a.fault.get("op_index", 0) + 1)]})
@@ -405,6 +417,8 @@ def run(tier):
             name = "%s/%s/%s" % (s.kind, s.arg or "-", s.flavour)
             accepted = [s.adds[i][0] for i in range(k) if s.flags[i][0]]
             rep = {"script_A": a.setup + a.ops, "file_B": b.meta["text"][-3000:], "accepted": accepted[-20:]}
+            if b.fault and b.fault["kind"] == "tick-budget":
+                continue
             if b.fault or len(b.out) < 3:
                 v.violation("C15:fault-in-file-compile", "the concatenated file faults: %s" % (b.fault or {}).get("kind"), rep)
                 continue
@@ -412,6 +426,9 @@ def run(tier):
             db, ddb = strip(b.out[1]), strip(b.out[2])
             v.cov["evaluations"] += 1
             dist["dump_compared"] += 1
+            if da.startswith("T null") and db.startswith("T null"):
+                dist["base_does_not_compile"] = dist.get("base_does_not_compile", 0) + 1
+                continue
             if db.startswith("T null"):
                 v.violation("C15:file-rejects-accepted-rules", "base + the rules lou_compileString accepted does not compile as a file (%s, %d rules)"
                             % (name, len(accepted)), rep)
@@ -518,9 +535,12 @@ def run(tier):
             continue
         ret, e = ret_of(c.out[3]), errs(c.out[3])
         changed = strip(c.out[1]) != strip(c.out[4]) or strip(c.out[2]) != strip(c.out[5])
-        hidden = (not changed) and ret == "0" and not cCtl.fault and strip(c.out[8]) != strip(cCtl.out[3])
+        hidden = (not changed) and ret == "0" and not cCtl.fault and (
+            strip(c.out[8]) != strip(cCtl.out[3]) or [res_key(x) for x in c.out[9:]] != [res_key(x) for x in cCtl.out[4:]])
         if hidden:
             a, b = strip(cCtl.out[3]).split(" | "), strip(c.out[8]).split(" | ")
+            if a == b:
+                a, b = [res_key(x) for x in cCtl.out[4:]], [res_key(x) for x in c.out[9:]]
             dist["dirty_shapes"][shape] = dist["dirty_shapes"].get(shape, "") + "H"
             v.violation("C15:rejected-partial:" + shape, "lou_compileString(%r) returns 0 and the dump is unchanged, but later additions come out "
                         "differently than without it: %s" % (txt, [x for x in b if x not in a][:3]), rep)
